@@ -27,6 +27,26 @@ Definition COMMA : N := 44.
 Definition paren_args (s : str) : list str :=
   let a := map strip (split_sep COMMA s) in
   match a with [x] => if nil_b x then [] else a | _ => a end.
+(** The same statement sequence as a GENERATED object (round 5): translate/c16_fgd.py reads off EntityDef.parse which separator the
+    PAREN_ARGS text is split at, whether every piece is stripped, whether the comprehension FILTERS pieces (none / those that are
+    blank after strip / those that are empty before it) and whether the one-blank-argument result `['']` is cleared afterwards.
+    [paren_args_with c] is what such code computes; [args_cfg_ok] names today's shape, for which it is [paren_args] on all inputs
+    (FgdHeadProofs.paren_args_with_is_model).  A filter is NOT today's shape: helper arguments are positional and the writer
+    leaves an empty slot for a blank one, so dropping blanks shifts the later arguments left (args_filter_refuted). *)
+Inductive blank_filter := FKeep | FDropStripped | FDropRaw.
+Record args_cfg := mk_args_cfg { ac_sep : N; ac_strip : bool; ac_filter : blank_filter; ac_clear_sole : bool }.
+Definition paren_args_with (c : args_cfg) (s : str) : list str :=
+  let pieces := split_sep (ac_sep c) s in
+  let kept := match ac_filter c with
+              | FKeep => pieces
+              | FDropStripped => filter (fun x => negb (nil_b (strip x))) pieces
+              | FDropRaw => filter (fun x => negb (nil_b x)) pieces
+              end in
+  let a := if ac_strip c then map strip kept else kept in
+  if ac_clear_sole c then match a with [x] => if nil_b x then [] else a | _ => a end else a.
+Definition filter_is_keep (f : blank_filter) : bool := match f with FKeep => true | _ => false end.
+Definition args_cfg_ok (c : args_cfg) : bool :=
+  N.eqb (ac_sep c) COMMA && ac_strip c && filter_is_keep (ac_filter c) && ac_clear_sole c.
 (** `', '.join(args)` *)
 Fixpoint join_cs (l : list str) : str :=
   match l with [] => [] | [x] => x | x :: r => x ++ COMMA :: 32 :: join_cs r end.
@@ -155,12 +175,16 @@ Definition head_read (ts : list tok) : option (head * list tok) :=
 
 (** * what makes a header re-readable *)
 Definition arg_ok (a : str) : Prop := a <> [] /\ mem_N COMMA a = false /\ strip a = a.
+(** a helper argument may be BLANK (round 5): `frustum(lightfov, , , lightcolor, -1)`.  The one list that does not come back is
+    [['']]: `helper()` is read as no argument at all. *)
+Definition arg_ok0 (a : str) : Prop := mem_N COMMA a = false /\ strip a = a.
+Definition args_ok (l : list str) : Prop := Forall arg_ok0 l /\ l <> [[]].
 Definition special (n : str) : bool := str_eqb n KW_BASE || str_eqb n KW_AUTOVIS || str_eqb n KW_ALIASOF.
 (** the written form [f] of a helper is read back as the helper object [h] *)
 Definition form_ok (f : hform) (h : H) : Prop :=
   match f with
   | HBare n => known n = true /\ special n = false /\ hparse n [] = Some h
-  | HCall n args => Forall arg_ok args /\ special n = false /\
+  | HCall n args => args_ok args /\ special n = false /\
                     (if known n then hparse n args = Some h else hunknown n args = h)
   end.
 End Head.
